@@ -16,11 +16,12 @@ Cases == ndJsonDeserialize(IOEnv.CASES)
 RSetsDef == [k \in 1..Len(Cases) |-> Compile(Cases[k].src)]
 Tr == ndJsonDeserialize(IOEnv.TRACE)
 
-VARIABLE l
-tvars == <<svars, l>>
+VARIABLES l,
+          rfault    \* errno of an injected hard read error not yet reported by the scanner (0: none)
+tvars == <<svars, l, rfault>>
 
 E == Tr[l]
-Is(e) == l <= Len(Tr) /\ E.e = e /\ l' = l + 1
+Is(e) == l <= Len(Tr) /\ E.e = e /\ l' = l + 1 /\ (E.e \in {"ReadFault", "Fatal", "Reset"} \/ UNCHANGED rfault)
 
 StateOK == /\ E.sc = sc' /\ E.depth = Len(stk')
            /\ (opt'.reentrant /\ cur' = 0) \/ E.lineno = lineno'     \* reentrant: yylineno lives in the current buffer
@@ -28,12 +29,13 @@ StateOK == /\ E.sc = sc' /\ E.depth = Len(stk')
 BufOK == StateOK /\ E.cur = cur'
 Same == UNCHANGED svars
 
-TInit == SInit /\ l = 1
+TInit == SInit /\ l = 1 /\ rfault = 0
 
-TReset == /\ Is("Reset")
+TReset == /\ Is("Reset") /\ rfault' = 0
           /\ Reset(E.rs, E.files, [interactive |-> E.interactive, array |-> E.array, lno |-> E.linenoopt,
                                    bolneeded |-> E.bolneeded, rejectmode |-> E.rejectmode, bufsize |-> E.bufsize,
-                                   strictread |-> E.strictread, reentrant |-> E.reentrant, userwrap |-> E.userwrap])
+                                   strictread |-> E.strictread, reentrant |-> E.reentrant, userwrap |-> E.userwrap,
+                                   failalloc |-> E.failalloc, stdio |-> E.stdio, yylmax |-> E.yylmax])
 TCall  == Is("Call") /\ Call
 TRead  == /\ Is("Read") /\ E.f + 1 = ReadFile /\ E.got = Len(E.bytes) /\ ReadFile <= Len(files)
           /\ E.got <= Len(files[ReadFile]) /\ E.bytes = SubSeq(files[ReadFile], 1, E.got) /\ Read(E.got)
@@ -58,10 +60,23 @@ TEof    == Is("Eof") /\ (IF opt.userwrap THEN EofAct(E.k) ELSE AtEof(E.k)) /\ St
 \* yylex() returned 0: either an <<EOF>> action just did that, or the default one does
 TEnd    == Is("End") /\ (IF phase = "done" THEN Same ELSE IF opt.userwrap THEN EofAct(0) ELSE AtEof(0))
 TFin    == Is("Fin") /\ phase \in {"done", "out"} /\ Same
-TFatal  == /\ Is("Fatal")
+TCounts == Is("Counts") /\ Same
+\* a read attempt that fails: EINTR (4) must be retried transparently.  Any other error persists (as
+\* on a broken device); stdio may first hand over bytes transferred before the error, but the next
+\* request fails again and that must be reported through the fatal-error hook at once.
+TReadFault == /\ Is("ReadFault") /\ Same
+              /\ IF E.errno = 4 THEN rfault' = rfault
+                 ELSE IF rfault = 0 THEN rfault' = E.errno
+                 ELSE rfault' = rfault /\ l + 1 <= Len(Tr) /\ Tr[l + 1].e = "Fatal"
+TInitFail == Is("InitFail") /\ opt.failalloc > 0 /\ E.r # 0 /\ E.errno \in {12, 22} /\ phase' = "done"
+             /\ UNCHANGED <<rs, inited, opt, bvars, cvars, lineno, kvars, wfrom, switched, hist>>
+TFatal  == /\ Is("Fatal") /\ rfault' = 0
            /\ \/ E.cls = "underflow" /\ phase = "fatal" /\ Same
               \/ E.cls = "rejectoverflow" /\ FatalRejectOverflow
               \/ E.cls = "pushback" /\ FatalPushback
+              \/ E.cls = "toolarge" /\ FatalTooLarge
+              \/ E.cls \in {"oom", "other"} /\ opt.failalloc > 0 /\ Same    \* which request was refused: see Trace_Heap
+              \/ E.cls = "readerr" /\ rfault # 0 /\ Same
 
 TWrapEnter == Is("WrapEnter") /\ WrapEnter /\ BufOK
 TWrapRet   == Is("WrapRet") /\ (IF E.r = 1 THEN WrapRet1 ELSE WrapRet0) /\ BufOK
@@ -79,7 +94,7 @@ TRestart   == Is("Restart") /\ Restart(E.f + 1) /\ BufOK
 TNext == \/ TReset \/ TCall \/ TRead \/ TTok \/ TReject \/ TActEnd \/ TRet \/ TLess \/ TMore \/ TUnput \/ TInput
          \/ TBegin \/ TPush \/ TPop \/ TPopU \/ TTop \/ TSetBol \/ TEof \/ TEnd \/ TFin \/ TFatal
          \/ TWrapEnter \/ TWrapRet \/ TSetYyin \/ TNewBuf \/ TNewMem \/ TScanFail \/ TSwitch \/ TPushBuf
-         \/ TPopBuf \/ TFlush \/ TDelete \/ TRestart
+         \/ TPopBuf \/ TFlush \/ TDelete \/ TRestart \/ TCounts \/ TReadFault \/ TInitFail
 TSpec == TInit /\ [][TNext]_tvars
 
 Accepted == TLCGet("stats").diameter - 1 = Len(Tr)
